@@ -209,7 +209,7 @@ pub fn c09(t: &dyn TypeOps, cx: &mut Cx) {
                 for _rep in 0..3 {
                     cx.evals += 1;
                     cx.transitions += 1;
-                    let r = t.load_history(loader, &p, 0, &[]);
+                    let r = t.load_history(loader, &p, 0, &[255]);
                     outcome = r.class();
                     drop(r);
                     heap.push(live_heap());
